@@ -19,6 +19,7 @@ RULE = ("one case = forecast (rates pairwise distinct; 'dyadic' variant: multipl
         "and >= 1 boundary-adjacent or extreme draw; distinct = canonical JSON.")
 ASSUMPTIONS = ["bin of u is the unique k with F_(k-1) <= u < F_k computed with exact Fractions of the float rates",
                "general (non-dyadic) arrays: boundary-adjacent draws are not generated (the float cumulative sum legitimately differs from the exact one by ulps); 0.0 and 1-2^-53 are",
+               "integer-rate arrays (exact cumulative sums, rational boundaries F_k): draws at pred(fl(F_k)) and succ(fl(F_k)), which lie strictly below / above F_k; fl(F_k) itself only when it equals F_k",
                "injected numbers for binary/Brier tests hit pairwise distinct bins (the prescribed number of *active cells* is otherwise not defined)",
                "statistic oracles as in C05/C16; tolerance 1e-9*(1+sum|terms|) resp. eps/lambda",
                "resampled-M / MLL cases have >= 2 magnitude edges (the tests take the bin width from the first two edges)",
@@ -40,11 +41,27 @@ def reachable(weights, n_act, pmin=1e-2):
 
 
 def make_u(F, k, mode, t, dyadic):
-    """uniform number for bin k according to mode; returns (u, expected bin)"""
+    """uniform number for bin k according to mode; returns (u, expected bin)
+    dyadic = True  : boundaries are exact doubles, draws on and next to them
+    dyadic = "int" : integer rates with an arbitrary total: F_k is rational, f = fl(F_k) its nearest double; draws at pred(f)
+                     (certainly below F_k -> bin k) and succ(f) (certainly above -> next bin); f itself only when f == F_k"""
     if mode == "zero":
         u = 0.0
     elif mode == "max":
         u = ONE_MINUS
+    elif dyadic == "int" and mode in ("lo", "lo+", "lo-", "hi-"):
+        lo, hi = F[k], F[k + 1]
+        flo, fhi = float(lo), float(hi)
+        if mode == "lo":
+            u = flo if Fraction(flo) == lo else math.nextafter(flo, 2.0)
+        elif mode == "lo+":
+            u = math.nextafter(flo, 2.0)
+        elif mode == "lo-":
+            u = math.nextafter(flo, -1.0)
+        else:
+            u = math.nextafter(fhi, -1.0)
+        if not (0.0 <= u < 1.0):
+            u = 0.0
     elif dyadic and mode in ("lo", "lo+", "lo-", "hi-"):
         a, b = float(F[k]), float(F[k + 1])
         u = {"lo": a, "lo+": math.nextafter(a, 2.0), "lo-": math.nextafter(a, -1.0), "hi-": math.nextafter(b, -1.0)}[mode]
@@ -68,11 +85,21 @@ def plan_draws(weights, sims, n, dyadic, distinct_bins):
             if n > len(pos):
                 return None, None
             start = int(sim[0][1] * len(pos)) if sim else 0
+            if sim and sim[0][0] == "max":
+                start = len(pos) - n              # window ending at the last positive-rate bin
+            elif sim and sim[0][0] == "zero":
+                start = 0
             chosen = [pos[(start + j) % len(pos)] for j in range(n)]
+            if sim and sim[0][0] == "max":
+                chosen = chosen[::-1]             # the "max" draw (first in the list) goes to the last bin
         for j in range(n):
             mode, r, t = sim[j]
             k = chosen[j] if distinct_bins else pos[min(int(r * len(pos)), len(pos) - 1)]
-            if distinct_bins and mode in ("zero", "max", "lo-"):
+            if distinct_bins and mode == "max" and k == pos[-1]:
+                pass                              # 1 - 2^-53 belongs to the last positive-rate bin
+            elif distinct_bins and mode == "zero" and k == pos[0]:
+                pass                              # 0.0 belongs to the first positive-rate bin
+            elif distinct_bins and mode in ("zero", "max", "lo-"):
                 mode = "lo" if dyadic else "in"   # keep the draw inside its own bin so bins stay distinct
             u, b = make_u(F, k, mode, t, dyadic)
             if u is None:
@@ -309,8 +336,16 @@ def cases(draw, max_events=50):
     c = draw(G.setups(max_cells=12, max_mags=4, max_events=max_events, distinct=True))
     if dyadic:
         n = len(c["rates"])
-        c["rates"] = draw(G.rate_arrays(n, dyadic=True))
-        c["dyadic"] = True
+        if draw(st.booleans()):
+            c["rates"] = draw(G.rate_arrays(n, dyadic=True))
+            c["dyadic"] = True
+        else:
+            # small integer rates, arbitrary total (e.g. 10 or 49): exact cumulative sums, rational boundaries
+            vals = [draw(st.integers(0, 9)) for _ in range(n)]
+            if not any(vals):
+                vals[draw(st.integers(0, n - 1))] = 3
+            c["rates"] = [float(v) for v in vals]
+            c["dyadic"] = "int"
     n = max(len(c["obs"]), 1)
     k = draw(st.integers(1, 6))
     modes = ["in", "in", "zero", "max"] + (["lo", "lo+", "lo-", "hi-"] if dyadic else [])
@@ -345,7 +380,7 @@ def mtest_cases(draw):
 def run(ctx):
     def fn(c, case):
         check_case(c, case)
-        c.record(case, nontrivial(case), case["k"] + (":dyadic" if case.get("dyadic") else ""))
+        c.record(case, nontrivial(case), case["k"] + (":%s" % ("integer_rates" if case.get("dyadic") == "int" else "dyadic") if case.get("dyadic") else ""))
 
     ctx.drive(cases(max_events=ctx.n(50, 120)), ctx.n(300, 3000), fn=fn, salt=1)
     ctx.drive(mtest_cases(), ctx.n(100, 800), fn=fn, salt=2)
